@@ -206,6 +206,50 @@ def C06_3(ctx, facts):
             tys = c.t.get("argtys") or []
             if tys and tys[0].startswith("&mut std::collections::HashMap<") and tys[0].rstrip(">").endswith(TOKEN_TY):
                 ctx.bad("%s|tokenmap-write" % g.nkey, "the key->token map is accessed mutably outside TokenMap::insert", c.where())
+    # the key->token relation only ever grows: no TokenMap value is overwritten / replaced (tokens already handed out
+    # stay reserved for their key; a reset would re-issue live tokens to other keys), the counter is written only by the
+    # advancing store of the minting closure, and insert touches the map through entry() alone.
+    TM = "client::pool::key::TokenMap<"
+    n_scanned = 0
+    for g in facts.fns.values():
+        ctor = g.nkey.startswith("<client::pool::key::TokenMap as std::default::Default>") or g.nkey in ("client::pool::key::TokenMap::new",)
+        for b in g.live:
+            for st in g.stmts(b):
+                if st["k"] != "assign":
+                    continue
+                n_scanned += 1
+                pl = st["p"]
+                lty = g.locals[pl["l"]]
+                whole = (pl["p"] == ["*"] and lty.startswith("&mut " + TM))
+                r = st["r"]
+                src = r.get("o") if r["k"] == "use" else None
+                sp = (src.get("m") or src.get("c")) if isinstance(src, dict) else None
+                if sp is not None and not sp["p"] and g.locals[sp["l"]].startswith(TM) and pl["p"] and not ctor:
+                    whole = True
+                if r["k"] == "agg" and (r.get("adt") or "").endswith("key::TokenMap") and pl["p"] and not ctor:
+                    whole = True
+                if whole:
+                    ctx.bad("%s|tokenmap-overwritten" % g.nkey, "a TokenMap is overwritten in place: tokens already handed out would be issued again to other keys", g.where(b))
+                if pl["p"] and isinstance(pl["p"][-1], dict) and (pl["p"][-1].get("n") or "").endswith("counter") and not ctor:
+                    base_ty = lty
+                    if "TokenMap" in base_ty or g.d.get("parent") == ins.key:
+                        rr2 = g.roots(r["o"]) if r["k"] == "use" else set()
+                        adv = any(x.kind == "call" and x.site.matches(r"checked_add|saturating_add") for x in rr2)
+                        ctx.check(adv, "%s|counter-store-advances" % g.nkey, "every store to the token counter is an advance of its previous value",
+                                  "the token counter is stored from %s" % sorted(map(repr, rr2)), g.where(b))
+            t = g.term(b)
+            if t["k"] == "call":
+                c = CallSite(g, b, t)
+                tys = t.get("argtys") or []
+                if c.matches(r"mem::(replace|swap|take)") and tys and tys[0].startswith("&mut " + TM):
+                    ctx.bad("%s|tokenmap-overwritten" % g.nkey, "a TokenMap is replaced through std::mem: tokens already handed out would be issued again", c.where())
+    for c in ins.calls():
+        tys = c.t.get("argtys") or []
+        if tys and tys[0].startswith("&mut std::collections::HashMap<"):
+            ctx.check(c.matches(r"HashMap.*::entry$"), "TokenMap::insert|map-access|%s" % norm(c.name).split("::")[-1],
+                      "insert touches the map through entry() only (no removal, clearing or overwriting of stored tokens)",
+                      "TokenMap::insert calls %s on the map" % norm(c.name), c.where())
+    ctx.ok("TokenMap|never-overwritten", "no TokenMap value is overwritten or replaced outside its constructor (%d assignments scanned)" % n_scanned)
     # TokenMap::insert callers
     cs = facts.call_sites_of("client::pool::key::TokenMap::insert")
     ctx.floor("TokenMap::insert|callers", len(cs), 1, "callers of TokenMap::insert")
